@@ -432,22 +432,34 @@ def run():
                             lambda c, q=q, d=d: classify_diags(q, d, c.get("program", "")))
 
     # ---------------------------------------------------------------- 3. the same predicate evaluated in Coq, cross-validated
-    coq_ok = False
-    if accepted and (pr["ok"] or os.path.exists(os.path.join(os.path.dirname(__file__), "..", "..", "coq", "Model", "RqWf.vo"))):
-        sel = accepted if ck.thorough or len(accepted) <= 2500 else accepted[:2500]
+    # (for the programs whose trace is replayed below, rq_diags is evaluated in the replay's expression: the RQ term is parsed once)
+    coq_ok = bool(accepted) and bool(pr["ok"] or os.path.exists(os.path.join(os.path.dirname(__file__), "..", "..", "coq", "Model", "RqWf.vo")))
+    replay_n = ck.n(600, 5000)
+    mirror_done = set()
+
+    def mirror_compare(p, q, v, ov):
+        ck.count("coq-vs-mirror", p)
+        mirror_done.add(p)
+        if ov is not None and list(ov) != agg_overlaps(q):
+            ck.violation("python mirror of agg_overlaps disagrees with the Coq definition", {"program": p, "coq": str(ov)})
+        if v is None or canon_coq(v) != [tuple(x) for x in py[p]]:
+            ck.violation("python mirror of rq_wf disagrees with the Coq definition (bug in the check, or the model changed)",
+                         {"program": p, "coq": str(v), "mirror": [list(x) for x in py[p]]})
+
+    def coq_vs_mirror(sel):
+        nonlocal coq_ok
+        if not sel or not coq_ok:
+            return
         try:
             vals = coq_eval(rqcoq.COQ_HEADER.replace("Model.RqWf.", "Model.RqWf Model.RqAgg."), ["(let q := %s in (rq_diags q, agg_overlaps q))" % rqcoq.to_coq(q) for _, q in sel])
-            coq_ok = True
             for (p, q), v2 in zip(sel, vals):
-                ck.count("coq-vs-mirror", p)
-                v = v2[0] if isinstance(v2, tuple) and len(v2) == 2 else None
-                if v is not None and list(v2[1]) != agg_overlaps(q):
-                    ck.violation("python mirror of agg_overlaps disagrees with the Coq definition", {"program": p, "coq": str(v2[1])})
-                if v is None or canon_coq(v) != [tuple(x) for x in py[p]]:
-                    ck.violation("python mirror of rq_wf disagrees with the Coq definition (bug in the check, or the model changed)",
-                                 {"program": p, "coq": str(v), "mirror": [list(x) for x in py[p]]})
+                ok2 = isinstance(v2, tuple) and len(v2) == 2
+                mirror_compare(p, q, v2[0] if ok2 else None, v2[1] if ok2 else None)
         except RuntimeError as ex:
+            coq_ok = False
             ck.coverage["model_eval_error"] = str(ex)[-600:]
+
+    coq_vs_mirror(accepted[replay_n:])
     ck.coverage["coq_evaluated"] = coq_ok
 
     # ---------------------------------------------------------------- 3b. the Lowerer machine against lowering.rs, operation by operation
@@ -498,10 +510,11 @@ def run():
                      "the Lowerer machine was NOT compared with the code" % nohook, {"programs_without_trace": nohook}, no_input=True)
     for why, cnt in hook_missing.items():
         ck.violation("%s: %d trace(s) could not be replayed -- the Lowerer machine was NOT compared with the code" % (why, cnt), {"reason": why, "programs": cnt}, no_input=True)
-    # the replay evaluates four verdicts per trace inside Coq: every accepted program in the quick tier, the first 5000 in the thorough tier
-    if len(cases) > 5000:
-        ck.coverage["op_trace_not_replayed_in_this_tier"] = len(cases) - 5000
-        cases = cases[:5000]
+    # parsing the trace terms is what costs: the quick tier replays the first 600 accepted programs (the pool, the fixed shapes and ~350 generated ones),
+    # the thorough tier the first 5000
+    first_n = set(p for p, _ in accepted[:replay_n])
+    ck.coverage["op_trace_not_replayed_in_this_tier"] = sum(1 for c in cases if c[0] not in first_n)
+    cases = [c for c in cases if c[0] in first_n]
     trace_ok = 0
     have_lookups = any(c16_trace.has_lookup_hook(c[4]["ops"]) for c in cases)
     if cases and not have_lookups:
@@ -518,11 +531,14 @@ def run():
         try:
             # both verdicts of one trace in one expression (the term is parsed once).  The frames of OEndTable / OEndInline are
             # computed by the machine from the lineage (push_select_m) and compared with what push_select returned (BFrame)
-            both = coq_eval(c16_trace.COQ_HEADER, ["(let l := %s in let q := %s in (replay_l_verdict false l q, replay_l_verdict true l q, first_out_of_scope_read init l 0, entries_verdict l q))" % (t, qc) for _, t, qc, _, _ in cases]) if cases else []
+            both = coq_eval(c16_trace.COQ_HEADER, ["(let l := %s in let q := %s in (replay_l_verdict false l q, replay_l_verdict true l q, first_out_of_scope_read init l 0, entries_verdict l q, rq_diags q, agg_overlaps q))" % (t, qc) for _, t, qc, _, _ in cases]) if cases else []
             vals = [b[0] if isinstance(b, tuple) else None for b in both]
             strict = dict((c[0], b[1]) for c, b in zip(cases, both) if isinstance(b, tuple))
             entry = dict((c[0], b[2]) for c, b in zip(cases, both) if isinstance(b, tuple))
             entv = dict((c[0], b[3]) for c, b in zip(cases, both) if isinstance(b, tuple))
+            for c, b in zip(cases, both):
+                if isinstance(b, tuple) and len(b) == 6:
+                    mirror_compare(c[0], norm_of[c[0]], b[4], b[5])
         except RuntimeError as ex:
             vals = None
             ck.coverage["trace_eval_error"] = str(ex)[-600:]
